@@ -109,7 +109,7 @@ def run_case(case):
 def cases(draw, tier):
     provs = draw(st.sampled_from([("machine",), ("machine", "model"), ("machine", "model", "l0"), ("machine", "model", "l0", "late0")]))
     late = tuple(p for p in provs if p.startswith("late"))
-    async_mode = draw(st.sampled_from(["all", "mixed", "mixed", "one"]))
+    async_mode = draw(st.sampled_from(["all", "mixed", "mixed", "one", "late-only"])) if late else draw(st.sampled_from(["all", "mixed", "mixed", "one"]))
     spec = draw(gen.machine_spec(max_states=4, max_extra=6, providers=provs, late=late, async_mode=async_mode, sends=draw(st.booleans()),
                                  shared_names=draw(st.booleans())))
     cfg = {"rtc": True, "allow": draw(st.booleans()), "driver": draw(st.sampled_from(["sync", "loop", "threads", "loop"])),
